@@ -20,6 +20,8 @@ CLAIMS = {
          "partial: the override table of the four Encode methods per impl is not modelled (entry points are checked on the implementation by the oracle, and the encode bytes against the model)."),
  "C08": ("§4 C08", "Theorems: the outcome does not depend on whether the input reports its remaining length (every type, every byte string); any stack of wrappers whose limits are not reached is invisible (for every decoder program); locality. Oracle: slice, IoReader over Cursor and over 1/3/4097-byte short-read readers, unknown-length Input, decode_from_bytes and ten wrapper stacks must agree pairwise on every input.",
          "partial: short-read readers and BytesCursor are identified with (content, known?) by assumption; the zero-copy Bytes path is covered by the oracle only."),
+ "C09": ("§4 C09", "Theorem (induction over the type universe, compositional over decoder programs): for every well-formed type whose containers store elements occupying at least one input byte, every byte string - including counts claiming 2^32-1 elements - with known or unknown remaining length, the heap reservations the decode makes (reserve_exact of each vector chunk, Box layouts, list/tree nodes) total at most rate(t) * (input length) + allowance(t), both functions of the type only; each chunk reservation is within the 16 KiB window; with a known length the bulk path reserves nothing unless the bytes are there. The hypothesis is necessary: C09_zero_wire_refuted exhibits the known finding F4. Tie: on every case the measured peak of live heap bytes of the real decode (counting global allocator; slice, unknown-length and shared-buffer inputs; hostile family = maximal counts in front of 0 / about one chunk / more than one chunk of valid payload) must be within twice the model's reservations for that input, the announced sizes must equal the model's exactly, and an implementation-side bound rate*len+allowance is checked.",
+         "partial: allocator behaviour is runtime - the theorem is about requested sizes in the model, tied to measured peaks by the correspondence (factor 2 + 4 KiB slack: both buffers live during realloc; std's B-tree nodes are charged one node per element in the model). Known finding F4 (zero-wire element types) is reported as KNOWN-FINDING and re-confirmed on every run with capped counts."),
  "C11": ("§4 C11", "Theorems for every decoder program (hence every type), input and limit: the depth-limited decode returns the unlimited result iff the descend/ascend nesting of its trace is at most L and an error otherwise (exact), transparent, error-preserving, monotone in L. The model's traces are tied to the crate by running decode_with_depth_limit for every L in 0..=depth+2 on the registry types.",
          "partial: that the trace nesting equals the container nesting depth of the decoded value is checked on the implementation (oracle against an independent depth function) rather than proved; native stack usage is a runtime behaviour the model cannot exhibit (the theorem bounds the recursion nesting by L)."),
  "C12": ("§4 C12", "Theorems for every decoder program, input and limit: with U the saturating sum of announced sizes, L > U is transparent and (if anything was announced, in particular if U > 0) L <= U fails; used_mem() with an unlimited budget is U; the B-tree estimate covers at least half of the entries. The announced sizes of the model are tied to the crate by running MemTrackingInput for every L in 0..=U+1 (U<=24; boundary limits otherwise).",
